@@ -403,9 +403,15 @@ def run_case(case, rec, mon=None):
             d = tempfile.mkdtemp(prefix="c16_")
             try:
                 path = os.path.join(d, "s.npy")
-                insts[0].save(path)
+                if case["idx"] % 4 == 1:
+                    # (the statistics may as well travel through an archive, compressed or not: the numbers are the same)
+                    path = os.path.join(d, "s.npz")
+                    insts[0].save(path, compress=bool(case["idx"] % 8 == 1))
+                    rec.count("statistics_reloaded_from_an_archive" + ("_compressed" if case["idx"] % 8 == 1 else ""))
+                else:
+                    insts[0].save(path)
                 # (loading options are passed on to the reader: the statistics may be read through a memory map of the file)
-                mm = [{}, {"mmap_mode": "r"}, {}, {"mmap_mode": "r+"}, {"mmap_mode": "c"}][case["idx"] % 5]
+                mm = [{}, {"mmap_mode": "r"}, {}, {"mmap_mode": "r+"}, {"mmap_mode": "c"}][case["idx"] % 5] if path.endswith(".npy") else {}
                 if mm:
                     rec.count("statistics_loaded_through_a_memory_map_" + mm["mmap_mode"].replace("+", "plus"))
                 loaded = P.Standardize(path, norm_var=norm_var, **mm)
@@ -528,6 +534,27 @@ def run_case(case, rec, mon=None):
                 mon.v("have_stats is true on an instance that never accumulated, after an apply() that raised", check="have_stats", op="apply")
         import warnings as _w
 
+        if case["idx"] % 2 == 1:
+            # a tensor with a constant coefficient (zero variance: the documented outcome is a warning and that coefficient centred only),
+            # standardised twice by the same object: a transform without statistics has no memory, the two results are the same and finite
+            xz = np.array(x, dtype=np.float64)
+            xz[:, int(rng.integers(F))] = -2.5
+            xz.setflags(write=False)
+            outs = []
+            for _ in range(3):
+                try:
+                    with _w.catch_warnings():
+                        _w.simplefilter("ignore")
+                        outs.append(np.asarray(fresh.apply(xz)))
+                except Exception as e:
+                    outs.append(e)
+            rec.ev()
+            rec.count("zero_variance_tensors_standardised_repeatedly")
+            if any(isinstance(o, Exception) for o in outs):
+                if not all(isinstance(o, Exception) for o in outs):
+                    mon.v("repeated apply of one tensor with a constant coefficient: %r" % ([type(o).__name__ for o in outs],), check="repeat", op="apply")
+            elif not all(np.array_equal(outs[0], o, equal_nan=True) for o in outs[1:]) or not np.all(np.isfinite(outs[-1])):
+                mon.v("repeated apply of one tensor with a constant coefficient gives different / non-finite results", check="repeat", op="apply")
         for dt in ("float64", "float32", "int32"):
             v1 = np.array(x[0], dtype=dt)  # a lone vector (a warning and zeros when norm_var is off; refused when it is on)
             try:
